@@ -235,7 +235,7 @@ func typedRun[T comparable](c typedCase, r *pb.Rec, conv func(int) T) error {
 }
 
 func init() {
-	pb.Register("slice_functions_types", pb.Options{Base: 12000, Required: []string{"float64 elements with NaN and signed zeros", "struct elements with a NaN field", "zero-size element type", "Equal(s, s) is false (an element differs from itself)"},
+	pb.Register("slice_functions_types", pb.Options{Twins: 3, Base: 12000, Required: []string{"float64 elements with NaN and signed zeros", "struct elements with a NaN field", "zero-size element type", "Equal(s, s) is false (an element differs from itself)"},
 		Rule: "Diff/Intersect/Unique/Filter, the in-place forms, Equal (also with the same slice passed twice), Index and Contains instantiated for float64 (NaN, -0, +0, Inf), string, a struct with a float32 field, *int (different pointers to equal values, nil) and struct{}; slices of 0..12 elements, dst in {nil, fresh, s1[:0], s2[:0]}; oracle: the definitions spelled with == and linear scans, elements identified by their printed form; non-trivial = first slice of >= 3 elements"},
 		genTyped, runTyped)
 }
